@@ -1,16 +1,31 @@
 #!/bin/bash
 # usage: scripts/run-mutant.sh <seeded-dir> <tier> <property> [<property> ...]
-# Applies the seeded change to /repo, runs the named checks against it and undoes the change straight afterwards.
-# Prints one line per check: "<mutant> <property> <tier> exit=<code> <first VIOLATION line / last line>".
-# Nothing is ever committed to /repo; evidence files written meanwhile are restored from git.
-d="$1"; tier="$2"; shift 2
+# Runs the named checks against a seeded change WITHOUT touching /repo or /verif: a scratch worktree of /repo HEAD gets
+# the patch, a scratch copy of /verif (specs, harness, known findings) is pointed at it, and both are removed afterwards.
+# Prints one line per check: "<mutant> <property> <tier> exit=<code> <first VIOLATION line and what / last line>".
+d="$(cd "$1" && pwd)"; tier="$2"; shift 2
 [ -f "$d/patch.diff" ] || { echo "no patch in $d"; exit 2; }
-if ! git -C /repo diff --quiet; then echo "/repo working tree is not clean"; exit 2; fi
-git -C /repo apply "$d/patch.diff" || { echo "patch does not apply"; exit 2; }
-trap 'git -C /repo checkout -- . ; git -C /verif checkout -- evidence 2>/dev/null' EXIT
+export GOFLAGS=-mod=mod GOPROXY=off GOSUMDB=off GOTOOLCHAIN=local
+S=$(mktemp -d /tmp/iso.XXXXXX)
+cleanup() { git -C /repo worktree remove --force "$S/repo" 2>/dev/null; rm -rf "$S"; git -C /repo worktree prune; }
+trap cleanup EXIT
+git -C /repo worktree add -q --detach "$S/repo" HEAD || exit 2
+git -C "$S/repo" apply "$d/patch.diff" || { echo "$(basename $d): patch does not apply"; exit 2; }
+mkdir -p "$S/verif" && (cd /verif && tar cf - --exclude=./bin --exclude=./replays --exclude=./.git --exclude=./seeded --exclude=./evidence .) | (cd "$S/verif" && tar xf -)
+mkdir -p "$S/verif/bin" "$S/verif/replays" "$S/verif/evidence"
+sed -i "s|=> /repo/|=> $S/repo/|" "$S/verif/harness/go.mod"
+export VERIF_ROOT="$S/verif" VERIF_SCRATCH="${TMPDIR:-/tmp}"
+race=""; for p in "$@"; do [ "$p" = C20 ] && race=1; done
+if ! (cd "$S/verif/harness" && go build -tags verif -o "$S/verif/bin/verif" ./cmd/verif \
+   && go build -tags verif -o "$S/verif/bin/cbtemulator" github.com/fullstorydev/emulators/bigtable/cmd/cbtemulator \
+   && go build -tags verif -o "$S/verif/bin/gcsemulator" github.com/fullstorydev/emulators/storage/cmd/gcsemulator \
+   && { [ -z "$race" ] || go build -race -tags verif -o "$S/verif/bin/verif-race" ./cmd/verif; }) >"$S/build.log" 2>&1; then
+  echo "$(basename $d): harness does not build against the change"; tail -5 "$S/build.log"; exit 2
+fi
 for p in "$@"; do
-  out=$(/verif/scripts/run-check.sh "$p" "$tier" 2>&1); code=$?
-  line=$(echo "$out" | grep -m1 "^VIOLATION" ); what=$(echo "$out" | grep -m1 -A1 "^VIOLATION" | tail -1 | cut -c1-300)
-  [ -z "$line" ] && what=$(echo "$out" | tail -1 | cut -c1-300)
+  out=$(cd "$S/verif" && timeout -s QUIT ${MUT_TIMEOUT:-3600} bin/verif check --property "$p" --tier "$tier" 2>&1); code=$?
+  [ -n "$MUT_LOG" ] && echo "$out" > "$MUT_LOG.$(basename $d).$p"
+  line=$(echo "$out" | grep -m1 "^VIOLATION" | sed "s|$S||"); what=$(echo "$out" | grep -m1 -A1 "^VIOLATION" | tail -1 | cut -c1-260)
+  [ -z "$line" ] && what=$(echo "$out" | grep -v '^\[C[0-9]*\] ' | tail -1 | cut -c1-260)
   echo "$(basename $d) $p $tier exit=$code $line $what"
 done
